@@ -338,4 +338,16 @@ theorem top_tops : ∀ (es : List Item), SimpleTops es →
     simp only [rdKids, List.append_assoc, List.cons_append, List.nil_append, startLine, gapBefore]
     rfl
 
+
+theorem simpleTops_noCh {x : Char} (hx : Safe x) : ∀ (es : List Item) (first : Bool) (lt : Nat), SimpleTops es →
+    CmdsNoCh x (elemsCmds 0 es first 0 lt)
+  | [], _, _, _ => by intro c hc; simp [elemsCmds] at hc
+  | e :: r, first, lt, h => by
+    simp only [SimpleTops] at h
+    rw [elemsCmds_cons_unloc 0 e r first lt (Plain.loc e (SimpleTop.plain e h.1))]
+    refine CmdsNoCh.append (CmdsNoCh.append (cmdsNoCh_gapIf x _) ?_) (simpleTops_noCh hx r false e.typeOrder h.2)
+    rcases h.1 with hs | hs
+    · exact simpleItem_noCh hx e 0 hs.1
+    · exact simpleService_noCh hx e 0 hs
+
 end J5V.Print.Reparse
